@@ -62,9 +62,12 @@ def setRowsOf (db : DB) (kid : Int) : List (Row SetRow) :=
 def hashRowsOf (db : DB) (kid : Int) : List (Row HashRow) :=
   (hashRows db kid).map (fun r => ⟨r.rowid, r⟩)
 
-/-- the rows of one sorted set in the order of the covering index `rzset_score_idx
-(kid, score, elem)` — by score, then by member bytes —, cursor column `rowid` -/
-def zRowsOf (db : DB) (kid : Int) : List (Row ZRow) :=
-  (zRows db kid).map (fun r => ⟨r.rowid, r⟩)
+/-- the rows of one sorted set in the order in which `sqlScan` produces them, cursor column
+`rowid`.  `byElem = false`: the covering index `rzset_score_idx (kid, score, elem)` — by score,
+then by member bytes; `byElem = true` (pattern with a usable literal prefix, `Model.zScanByElem`):
+`rzset_pk_idx (kid, elem)` — by member bytes. -/
+def zRowsOfBy (byElem : Bool) (db : DB) (kid : Int) : List (Row ZRow) :=
+  (if byElem then sortBy (fun (a b : ZRow) => bytesLt a.elem b.elem) (zRows db kid)
+   else zRows db kid).map (fun r => ⟨r.rowid, r⟩)
 
 end Redka.Scan
